@@ -240,6 +240,12 @@ pub fn unary(s: &Rel, form: Form, top: bool) -> Vec<Rel> {
             }
         }
     }
+    // P11: the (unique / join) key next to another integer column: rows of two columns for set operations
+    if let Some(j) = s.cols.iter().find(|c| !c.dom.is_empty() && c.kind == Kind::I) {
+        if let Some(o) = s.cols.iter().find(|c| c.kind == Kind::I && c.name != j.name) {
+            push("P11", format!("SELECT {} AS x, {} AS y FROM {from}", j.name, o.name), vec![out("x", j), out("y", o)], vec!["projection", "key-and-column"], true, false);
+        }
+    }
     if let Some(t) = s.cols.iter().find(|c| c.kind == Kind::T) {
         push(
             "P10",
@@ -285,6 +291,29 @@ pub fn unary(s: &Rel, form: Form, top: bool) -> Vec<Rel> {
             if let Some(k2) = p.k2 {
                 push("A10", format!("SELECT max({nn}) AS x, count(*) AS y FROM {from} GROUP BY {}", k2.name), vec![out_num("x", n.kind, n.pv, true, false), out_num("y", Kind::I, 1.0, true, true)], vec!["aggregate", "grouped", "key-not-projected"], true, false);
             }
+            // A11: the alias of a non-injective expression shadows the input column named in GROUP BY (SQL: the input
+            // column wins in GROUP BY); A12: GROUP BY an alias that is not an input column
+            if n.kind != Kind::T {
+                push(
+                    "A11",
+                    format!("SELECT CASE WHEN {nn} > {} THEN 1 ELSE 0 END AS {nn}, count(*) AS y FROM {from} GROUP BY {nn}", lit(n)),
+                    vec![out_num(nn, Kind::I, 0.0, true, true), out_num("y", Kind::I, 1.0, true, true)],
+                    vec!["aggregate", "grouped", "alias-shadows-column"],
+                    true,
+                    false,
+                );
+                // (the alias must not be the name of an input column: GROUP BY would then name that column and the
+                // select item would not be grouped — not a valid query)
+                let g = if s.cols.iter().any(|c| c.name == "g") { "h" } else { "g" };
+                push(
+                    "A12",
+                    format!("SELECT abs({nn} - {}) AS {g}, count(*) AS y FROM {from} GROUP BY {g}", lit(n)),
+                    vec![out_num(g, n.kind, 0.5, true, true), out_num("y", Kind::I, 1.0, true, true)],
+                    vec!["aggregate", "grouped", "group-by-alias"],
+                    true,
+                    false,
+                );
+            }
             push("A7", format!("SELECT count(DISTINCT {kn}) AS x, sum(DISTINCT {nn}) AS y FROM {from}"), vec![out_num("x", Kind::I, 1.0, true, true), out_num("y", n.kind, n.pv * 2.0, true, false)], vec!["aggregate", "ungrouped", "distinct-aggregate"], true, false);
             if let Some(k2) = p.k2 {
                 push(
@@ -321,6 +350,16 @@ pub fn unary(s: &Rel, form: Form, top: bool) -> Vec<Rel> {
     if top {
         push("O4", format!("SELECT {all} FROM {from} ORDER BY {desc}"), s.cols.clone(), vec!["orderby"], true, false);
         push("O5", format!("SELECT {all} FROM {from} ORDER BY {all} LIMIT 0"), s.cols.clone(), vec!["orderby", "limit0"], true, true);
+        if let (Some(n), Some(k)) = (p.n, p.k) {
+            push(
+                "O6",
+                format!("SELECT -{} AS {}, {} FROM {from} ORDER BY {}, {}", n.name, n.name, k.name, n.name, k.name),
+                vec![out_num(&n.name, n.kind, -n.pv, true, false), out(&k.name, k)],
+                vec!["orderby", "alias-shadows-column"],
+                true,
+                false,
+            );
+        }
     }
     v
 }
@@ -515,7 +554,7 @@ pub fn compose(depth: usize) -> Vec<Rel> {
         // set operations between level-1 unary terms of the same shape over different tables / constructors
         for r in &l1u {
             for r2 in &l1u {
-                if r.term != r2.term && starts_with_any(&r.term, &["P2(", "P3(", "A3(", "D1(", "P7("]) && starts_with_any(&r2.term, &["P2(", "P3(", "A3(", "D1(", "P9("]) {
+                if r.term != r2.term && starts_with_any(&r.term, &["P2(", "P3(", "A3(", "D1(", "P7(", "P11("]) && starts_with_any(&r2.term, &["P2(", "P3(", "A3(", "D1(", "P9(", "P11("]) {
                     l2_joins.extend(binary(r, r2, false).into_iter().filter(|b| b.term.starts_with("S.")));
                 }
             }
@@ -544,6 +583,15 @@ pub fn compose(depth: usize) -> Vec<Rel> {
             }
             // set operations as sources
             for sop in l2_joins.iter().filter(|b| b.term.starts_with("S.")) {
+                if sop.term.contains("(P11(") {
+                    for t in base.iter().filter(|t| matches!(t.table, Some("users") | Some("orders"))) {
+                        for b in binary(sop, t, false) {
+                            if starts_with_any(&b.term, &["J.inner.eq.s1", "J.inner.eq.s2", "J.left.eq.s1", "J.inner.eq.s3"]) {
+                                all.push(b);
+                            }
+                        }
+                    }
+                }
                 for u in unary(sop, Form::Derived, false) {
                     if starts_with_any(&u.term, &["P1(", "A1(", "A3(", "P7(", "O1("]) {
                         all.push(u);
